@@ -1,5 +1,6 @@
 import PytypeModel.Proofs.MiniFlowTable
 import PytypeModel.Typegraph.Program
+import PytypeModel.Proofs.TypegraphHide
 
 /-! # C01 — inferred types admit every value the program computes (fragment F1, phase a)
 
@@ -130,6 +131,48 @@ theorem rebind_keeps_older :
 theorem older_visible_before_merge :
     freshAnswer [] accSetup (.visible 0 2) = .bool true ∧ freshAnswer [] accSetup (.filter 0 2 true) = .ids [0] := by
   decide
+
+/-! The same two facts for **every** graph, on the declarative visibility relation `Expl` (which the solver decides on
+acyclic unconditioned graphs: `Props.C07.solve_iff_expl`). -/
+
+/-- A goal that is not produced at `n` is visible from `n` iff one of its origin nodes is reached by a backward path on
+which its variable is not bound again, and it is visible there. -/
+theorem visible_iff_clear_path (g : Graph) (b : BId) (n : NodeId) (hreg : (g.node n).bindings.contains b = false) :
+    Expl g n [b] ↔ ∃ m, m ∈ finishNodes g [b] ∧ ClearPath g (blockedOf g [b]) n m ∧ Expl g m [b] :=
+  visible_away_iff g b n hreg
+
+/-- **A later binding hides the older ones** — in any graph, however it was built: if the variable of `b` is bound at
+`k` and every backward path from `n` to an origin node of `b` passes through `k`, `b` is not visible from `n`.  This is
+what `merge_instance_type_parameter` at a later node does to the element types a container already has. -/
+theorem hidden_by_later_binding (g : Graph) (b : BId) (n k : NodeId) (hreg : (g.node n).bindings.contains b = false)
+    (hk : k ∈ blockedOf g [b]) (hsep : ∀ m, m ∈ finishNodes g [b] → ¬ ClearPath g [k] n m) : ¬ Expl g n [b] :=
+  later_binding_hides g b n k hreg hk hsep
+
+/-- **Rebinding keeps them visible** — in any graph: once `b` has an origin at `k` whose source is a copy `c` that has
+its own origin at `k` with source `b` (what `rebind_instance_type_parameter` creates), `b` is visible at `k` and from
+every node that reaches `k` by a backward path on which the variable is not bound again — whatever else is merged into
+the variable at `k`. -/
+theorem rebound_stays_visible (g : Graph) (b c : BId) (n k : NodeId) (ob oc : Origin)
+    (hregk : (g.node k).bindings.contains b = true)
+    (hb : g.findOrigin b k = some ob) (hbs : [c] ∈ ob.sourceSets)
+    (hc : g.findOrigin c k = some oc) (hcs : [b] ∈ oc.sourceSets) (hne : c ≠ b)
+    (hnc : NoConflict g (sinsert c [b])) :
+    Expl g k [b] ∧
+    ((g.node n).bindings.contains b = false → k ∈ finishNodes g [b] → ClearPath g (blockedOf g [b]) n k → Expl g n [b]) :=
+  ⟨rebound_visible_here g b c k ob oc hregk hb hbs hc hcs hne hnc,
+   fun hreg hk hp => rebound_visible_later g b n k hreg hk hp
+     (rebound_visible_here g b c k ob oc hregk hb hbs hc hcs hne hnc)⟩
+
+/-- non-vacuity: the graph of `accRebindThenMerge` meets the hypotheses (b = 0, its copy c = 2, k = 1, n = 2) … -/
+example : let g := ((PState.init []).run accRebindThenMerge).g
+    (g.node 1).bindings.contains 0 = true ∧ (g.findOrigin 0 1).isSome ∧ (g.findOrigin 2 1).isSome ∧
+    (g.node 2).bindings.contains 0 = false ∧ 1 ∈ finishNodes g [0] ∧ goalsConflict g (sinsert 2 [0]) = false := by
+  decide
+/-- … and the graph of `accMergeOnly` those of `hidden_by_later_binding` (b = 0, n = 2, k = 1; the only origin node
+of `b` is 0 and the only way back from 2 leads through 1) -/
+example : let g := ((PState.init []).run accMergeOnly).g
+    (g.node 2).bindings.contains 0 = false ∧ 1 ∈ blockedOf g [0] ∧ finishNodes g [0] = [0] ∧
+    g.incoming 2 = [1] := by decide
 
 end accumulate
 
